@@ -17,6 +17,23 @@ CHECKS = {
         "Trusted: the 20-line list/set model; order of binary-operator results is not constrained beyond contents.",
         "4/C24",
     ),
+    "C23": (
+        "icontract postcondition on the real function vs union-find reference",
+        "connected_components is called directly and through Pandas pipelines on every edge list of a bounded space "
+        "(<=4 edges on 4 vertices quick; <=5 on 4 and <=4 on 5 thorough) and on random lists up to 200 edges over "
+        "int/str/float/tuple vertices; an icontract postcondition on the real module function compares every result "
+        "with a union-find reference.",
+        "Trusted: the union-find reference; homogeneous comparable vertices.",
+        "4/C23",
+    ),
+    "C22": (
+        "boundary monitor on decorated calls vs reference predicate",
+        "Random specifications x calls x values (scalars, pandas and polars frames) are executed through the real "
+        "SchemaRaises decorator with the switch on and off; raise/return and result identity are compared with a "
+        "reference predicate written from the property statement.",
+        "Trusted: the reference predicate; null scalar arguments under a declared type are not judged.",
+        "4/C22",
+    ),
 }
 
 NOT_BUILT = "check not built yet (build in progress, see DESIGN.md section 8)"
